@@ -98,6 +98,22 @@ func ap(v ssa.Value, depth int) string {
 		return fmt.Sprintf("%s#%d", ap(x.Tuple, depth+1), x.Index)
 	case *ssa.Alloc:
 		if x.Comment != "" && x.Comment != "complit" && x.Comment != "varargs" && x.Comment != "new" {
+			// a spilled parameter (captured by a closure) is that parameter
+			var only ssa.Value
+			n := 0
+			if refs := x.Referrers(); refs != nil {
+				for _, r := range *refs {
+					if st, ok := r.(*ssa.Store); ok && st.Addr == ssa.Value(x) {
+						n++
+						only = st.Val
+					}
+				}
+			}
+			if n == 1 {
+				if p, ok := only.(*ssa.Parameter); ok {
+					return ap(p, depth+1)
+				}
+			}
 			return "var:" + x.Comment
 		}
 		return "alloc:" + x.Name()
